@@ -298,6 +298,9 @@ def schema_predicts_live(ctx: Ctx, scenarios: Dict[str, Any], registry: Dict[str
     bad_templ: List[str] = []
     lines: List[str] = []
     pending: List[dict] = []
+    glines: List[str] = []
+    gpending: List[dict] = []
+    from harness.rigs import request_guards as rguards
     n_states = 0
     for name, path in scenarios.items():
         try:
@@ -326,6 +329,11 @@ def schema_predicts_live(ctx: Ctx, scenarios: Dict[str, Any], registry: Dict[str
             check_inventory(ctx, sim, inv, S, bad_inv, where)
             lines.append("inv " + " ".join(inv_tokens(inv)))
             pending.append({"kind": "inv"})
+            # R-guards: the real validator objects of this state vs the translated predicates
+            n0 = len(gpending)
+            rguards.collect(ctx, sim, rng, where, glines, gpending)
+            for rec in gpending[n0:]:
+                rec["scenario"], rec["setup_ops"] = name, setup
             # templates: options naming live components (and a few missing ones)
             # every registered action type, several option sets each, in every state
             for ident0 in [i for i in sorted(registry) for _ in range(ctx.scale(5, 24))]:
@@ -379,6 +387,19 @@ def schema_predicts_live(ctx: Ctx, scenarios: Dict[str, Any], registry: Dict[str
     if not model_ok:
         ctx.notes.append("R-schema: Lean side skipped (module/driver did not build); tree, inventory, template and oracle checks ran")
         return
+    # ---- R-guards (one driver call)
+    gout = run_driver(EXE, glines) if glines else []
+    gbad = rguards.judge(ctx, gpending, gout)
+    ctx.oblige("rig:R-guards every live validator object answers what the translated __call__ answers on the abstracted component",
+               "correspondence", not gbad and len(gout) == len(gpending), "; ".join(gbad[:6]))
+    for rec, line in zip(gpending, gout):
+        if rec["kind"] == "veval" and line in ("0", "1") and rec["live"] is not (line == "1"):
+            ctx.violation({"kind": "validator-differs-from-translated-predicate", "rule": rec["atom"].split(":")[0]},
+                          f"{rec['where']}: {rec['cls']} on options {rec['opts']}: real validator {rec['live']} vs translated predicate {line == '1'}",
+                          {"scenario": rec["scenario"], "setup_ops": rec["setup_ops"], "validator": rec["cls"], "atom": rec["atom"],
+                           "opts": rec["opts"], "mode": "veval"})
+            break
+    ctx.notes.append(f"R-guards: {len(gpending)} validator evaluations compared with the translated predicates")
     # ---- model side (one driver call)
     out = run_driver(EXE, lines)
     if len(out) != len(pending):
